@@ -1249,15 +1249,18 @@ func tdRowGroup(c *Ctx, rule, path, short string) {
 			bad = append(bad, "the chunk descriptor that was read is not removed from the column's list: the next row group re-reads with the first row group's sizes and counts")
 		}
 	}
-	// row groups: element 0 used, list advanced by one
-	var rgField *types.Var
+	// row groups: element 0 used, list advanced by one — or: the list kept whole and walked by an index field of the
+	// reader that is advanced by one after the row group's chunks have been read
+	var rgField, rgCursor *types.Var
 	for _, f := range t.fns {
 		for _, b := range f.Blocks {
 			for _, ins := range b.Instrs {
 				if ia, ok := ins.(*ssa.IndexAddr); ok {
 					if fl := t.selfField(ia.X); fl != nil && roleOf(fl) == "rowGroups" {
 						rgField = fl
-						if !constIs(ia.Index, 0) {
+						if cf := t.selfField(ia.Index); cf != nil {
+							rgCursor = cf
+						} else if !constIs(ia.Index, 0) {
 							bad = append(bad, "the row group read is entry "+symExpr(ia.Index, 0)+", want the first of the remaining ones")
 						}
 					}
@@ -1265,7 +1268,36 @@ func tdRowGroup(c *Ctx, rule, path, short string) {
 			}
 		}
 	}
-	if rgField == nil {
+	if rgField != nil && rgCursor != nil {
+		adv := 0
+		for _, st := range t.stores(rgCursor) {
+			bo, ok := st.Val.(*ssa.BinOp)
+			if ok && bo.Op == token.ADD && constIs(bo.Y, 1) && t.selfField(bo.X) == rgCursor && !t.before(st, rd) {
+				adv++
+			} else {
+				bad = append(bad, "the index of the next row group is set to "+symExpr(st.Val, 0)+", want it advanced by one after the row group was read")
+			}
+		}
+		if adv != 1 {
+			bad = append(bad, fmt.Sprintf("the index of the next row group is advanced %d times per row group read, want once", adv))
+		}
+		for _, st := range t.stores(rgField) {
+			bad = append(bad, "the list of row groups is walked by an index but also set to "+symExpr(st.Val, 0))
+		}
+		// nowhere else in the package
+		_, others := storesTo(u, rgCursor)
+		for _, st := range others {
+			in := false
+			for _, f := range t.fns {
+				if st.Parent() == f {
+					in = true
+				}
+			}
+			if !in && !constIs(st.Val, 0) {
+				bad = append(bad, "the index of the next row group is also written in "+u.FnName(st.Parent()))
+			}
+		}
+	} else if rgField == nil {
 		bad = append(bad, "readRowGroup does not take the first of the remaining row groups")
 	} else {
 		adv := false
